@@ -39,11 +39,16 @@ func runC19(c *Ctx) {
 	if !c.R.Anchor(cl != nil, "backend.(*ClassifierBackend).classifyLicense") {
 		return
 	}
-	clFns := core.WithAnon(cl)
+	// classifyLicense, its closures and the unexported helpers of the package it is split into
+	clFns := pkgClosure(cl, backendPkg)
 
 	// ---- R19.1 field agreement ---------------------------------------------------
 	n1 := 0
+	var lts []structLit
 	for _, lit := range structLits(clFns, "/results.LicenseType") {
+		lts = append(lts, expandLiteralDeep(p, lit, cl)...)
+	}
+	for _, lit := range lts {
 		n1++
 		var src ssa.Value
 		bad := ""
@@ -66,6 +71,11 @@ func runC19(c *Ctx) {
 				break
 			}
 		}
+		for i := 0; i < 4 && src != nil; i++ {
+			if a, ok := lit.subst[core.Unspill(src)]; ok {
+				src = a
+			}
+		}
 		if bad == "" {
 			// the source element comes from Match(contents).Matches of this file
 			if !strings.Contains(core.AP(src), "Match(") && !fromMatchCall(src) {
@@ -82,8 +92,9 @@ func runC19(c *Ctx) {
 	c.R.RequireMin("R19.1", "LicenseType literals in classifyLicense", n1, 1)
 	if nj := p.Func(resultsPkg, "NewJSONResult"); c.R.Anchor(nj != nil, "results.NewJSONResult") {
 		n2 := 0
-		for _, lit := range structLits([]*ssa.Function{nj}, "/results.Classification") {
+		for _, lit := range structLits(pkgClosure(nj, resultsPkg), "/results.Classification") {
 			n2++
+			nj := lit.fn
 			var src ssa.Value
 			bad := ""
 			for _, f := range []string{"Name", "Confidence", "StartLine", "EndLine"} {
@@ -256,18 +267,32 @@ func checkHeadersFilter(c *Ctx, p *core.Prog, fns []*ssa.Function) {
 		fn := lit.fn
 		target := lit.alloc.Block()
 		// loop body entry: the innermost loop header dominating the literal
-		var header *ssa.BasicBlock
-		for d := target; d != nil; d = d.Idom() {
-			back := false
-			for _, pr := range d.Preds {
-				if d.Dominates(pr) {
-					back = true
+		loopHeader := func(target *ssa.BasicBlock) *ssa.BasicBlock {
+			for d := target; d != nil; d = d.Idom() {
+				for _, pr := range d.Preds {
+					if d.Dominates(pr) {
+						return d
+					}
 				}
 			}
-			if back {
-				header = d
+			return nil
+		}
+		header := loopHeader(target)
+		// a literal built by a straight-line helper: the record site is the helper's (only) call site
+		for hops := 0; header == nil && hops < 3; hops++ {
+			var sites []ssa.CallInstruction
+			for _, g := range fns {
+				for _, call := range core.CallsIn(g) {
+					if eng.ResolveCallee(call.Common().Value) == fn {
+						sites = append(sites, call)
+					}
+				}
+			}
+			if len(sites) != 1 || len(fn.Blocks) != 1 {
 				break
 			}
+			fn, target = sites[0].Parent(), sites[0].Block()
+			header = loopHeader(target)
 		}
 		if header == nil {
 			c.R.Undecided("R19.2", "classifyLicense: headers filter", p.Pos(lit.alloc.Pos()), "the literal is not inside the loop over matches")
@@ -316,8 +341,11 @@ func checkHeadersFilter(c *Ctx, p *core.Prog, fns []*ssa.Function) {
 			if isHeadersFlag(v, fn) {
 				return 0
 			}
-			if bo, ok := v.(*ssa.BinOp); ok && bo.Op == token.EQL {
+			if bo, ok := v.(*ssa.BinOp); ok && (bo.Op == token.EQL || bo.Op == token.NEQ) {
 				if s, ok := core.ConstString(bo.Y); ok && s == "Header" && strings.HasSuffix(core.AP(bo.X), ".MatchType") {
+					if bo.Op == token.NEQ {
+						return -3
+					}
 					return 1
 				}
 			}
@@ -341,12 +369,48 @@ func checkHeadersFilter(c *Ctx, p *core.Prog, fns []*ssa.Function) {
 				detail = fmt.Sprintf("with headers=%v and MatchType==\"Header\" %v the match is recorded=%v, expected %v", assign[0], assign[1], got, want)
 			}
 		}
+		if why := flagChain(fn, fns, 0); why != "" && unknown == "" {
+			c.R.Fail("R19.2", "classifyLicense: a match is recorded iff headers or MatchType != \"Header\"", p.Pos(lit.alloc.Pos()), why)
+			continue
+		}
 		if unknown != "" {
 			c.R.Undecided("R19.2", "classifyLicense: a match is recorded iff headers or MatchType != \"Header\"", p.Pos(lit.alloc.Pos()), "the path to the record depends on an unrecognised condition: "+unknown)
 			continue
 		}
 		c.R.Check(good, "R19.2", "classifyLicense: a match is recorded iff headers or MatchType != \"Header\"", p.Pos(lit.alloc.Pos()), fmt.Sprintf("%d paths, truth table over (headers, MatchType==\"Header\") matches", len(paths)), detail)
 	}
+}
+
+// flagChain: when the record site lies in a helper, every call of the helper passes its caller's headers flag on
+// unchanged. Returns "" when that holds.
+func flagChain(fn *ssa.Function, fns []*ssa.Function, depth int) string {
+	top := fn
+	for top.Parent() != nil {
+		top = top.Parent()
+	}
+	idx := -1
+	for i, prm := range top.Params {
+		if isBool(prm.Type()) {
+			idx = i
+		}
+	}
+	if idx < 0 || depth > 3 {
+		return ""
+	}
+	for _, g := range fns {
+		for _, call := range core.CallsIn(g) {
+			if eng.ResolveCallee(call.Common().Value) != top || idx >= len(call.Common().Args) {
+				continue
+			}
+			if !isHeadersFlag(call.Common().Args[idx], g) {
+				return fmt.Sprintf("%s is called with %s as its headers flag, not with the caller's flag", top.Name(), core.AP(call.Common().Args[idx]))
+			}
+			if why := flagChain(g, fns, depth+1); why != "" {
+				return why
+			}
+		}
+	}
+	return ""
 }
 
 // isHeadersFlag: v is the boolean parameter of the enclosing top-level function (classifyLicense has
@@ -705,15 +769,38 @@ func checkLineReader(c *Ctx, p *core.Prog) {
 			unknown = v.String()
 			return -1
 		}
-		switch {
-		case bo.Op == token.LSS && bo.Y == start:
-			counter = bo.X
-			return 0
-		case bo.Op == token.GTR && bo.Y == end:
-			if counter == nil || counter == bo.X {
-				counter = bo.X
-				return 1
+		// normalise to `i OP bound`
+		op, x, y := bo.Op, bo.X, bo.Y
+		if x == ssa.Value(start) || x == ssa.Value(end) {
+			x, y = y, x
+			switch op {
+			case token.LSS:
+				op = token.GTR
+			case token.GTR:
+				op = token.LSS
+			case token.LEQ:
+				op = token.GEQ
+			case token.GEQ:
+				op = token.LEQ
 			}
+		}
+		if counter != nil && counter != x {
+			unknown = v.String()
+			return -1
+		}
+		switch {
+		case op == token.LSS && y == ssa.Value(start): // i < startLine
+			counter = x
+			return 0
+		case op == token.GEQ && y == ssa.Value(start): // i >= startLine  ==  !(i < startLine)
+			counter = x
+			return -2
+		case op == token.GTR && y == ssa.Value(end): // i > endLine
+			counter = x
+			return 1
+		case op == token.LEQ && y == ssa.Value(end): // i <= endLine  ==  !(i > endLine)
+			counter = x
+			return -3
 		}
 		unknown = v.String()
 		return -1
